@@ -211,9 +211,16 @@ fn attempt_assignment_tactics(
                         .over_budget()
                 {
                     // Hang the pair, using the original expression for formatting
+                    // Any comments trailing the expression have already been moved to after the punctuation
+                    let comments_moved = formatted.punctuation().is_some();
                     output_expr.push(formatted.map(|_| {
                         let expression =
                             hang_expression(ctx, original, shape, calculate_hang_level(original));
+                        let expression = if comments_moved {
+                            expression.update_trailing_trivia(FormatTriviaType::Replace(vec![]))
+                        } else {
+                            expression
+                        };
                         if idx == 0 {
                             expression
                         } else {
